@@ -62,6 +62,19 @@ CHECKS = {
    text="Cross-talk: TLC checks NoReuseWhileReferenced on the listener-wrapper / buffer-pool model (and that it fails with the pinned-commit behaviour); the real ListenerWrapper grid (C13's, incl. TLS-terminated hand-off, GOMAXPROCS 1..16, slow and absent consumers) is validated against clause L3 (a consumer reads only its own stream); N connections of four kinds run through ONE provisioned server (shared matchers, throttle total limiter, tee, echo) first alone then all at once, and TLC requires each connection's history (routes run, stream positions read, tee branch) to be identical and its reads to be its own stream in order; every selection policy is used by 8 goroutines at once. Data races: the same concurrent drivers (connections, listener, UDP bursts, two peers writing to one client) run under the Go race detector and any report with a repository frame is a violation.",
    note="the race detector is a monitor attached to the conformance drivers (a TLA+ model cannot observe Go memory-model races) and only sees executed schedules; the OpenVPN matcher's shared digest is not exercised yet",
    technique="TLA+ buffer-pool/listener model checked with TLC; trace validation of concurrent vs. solo executions; Go race detector on the concurrent drivers"),
+
+ "C14": dict(level="exploration", design="5 C14, 4.8",
+   text="Per protocol a TLA+ reference predicate Ref(message, filters) transcribed from the wire definition and the documented filter semantics (L4Wire); TLC enumerates abstract first messages over boundary field domains (including values that violate the definition) x filter configurations exhaustively; the harness's own encoders turn them into bytes, the real matcher (provisioned from the enumerated JSON) is evaluated, and TLC judges verdict = Ref on the complete first message (clause V1).",
+   note="coverage is the enumerated boundary domains, not all inputs; encoders are harness code; regular expressions are limited to pattern shapes restated in TLA+; protocols covered are listed in the evidence (by_proto)",
+   technique="TLA+ wire-definition reference predicates; exhaustive TLC vector enumeration evaluated on the real matchers; trace validation"),
+ "C06": dict(level="exploration", design="5 C06, 4.8",
+   text="For every enumerated vector the real matcher is evaluated on every sampled prefix length (fresh connection preloaded through real prefetch rounds with varying segmentation), twice; TLC judges the verdict sequence: no stays no (M1), a message matching whole is never rejected on a proper prefix (M2), repeatable (M3), evaluation reads nothing from the network and restores the cursor (M4).",
+   note="stream-oriented matchers only for M1/M2; prefix lengths sampled beyond 96 bytes",
+   technique="TLA+ verdict-over-prefix rules; TLC-enumerated vectors evaluated on the real matchers at every prefix; trace validation"),
+ "C04": dict(level="exploration", design="5 C04, 4.8",
+   text="Every evaluation of the C14/C06 vectors (well-formed messages, field-boundary corruptions incl. inconsistent length fields, every truncation) runs under recover() with the allocation counter sampled around it, in child processes with a 3 GiB address-space limit; TLC judges: never a panic (A1), never more than 512 KiB allocated by one evaluation (A2); a child killed by the runtime (out of memory) is attributed to the vector it announced.",
+   note="grammar-derived boundary inputs, not all byte strings; handlers are covered by their own checks (C12, C16); QUIC not covered",
+   technique="TLA+ robustness contract over TLC-enumerated boundary vectors evaluated on the real matchers; trace validation"),
 }
 NA = {
 }
